@@ -118,9 +118,9 @@ def replay_case(case):
     fails = []
     # integer-typed input also with LARGE magnitudes (values around 1e8, still exact in float64): integer arithmetic
     # on prefix sums must not overflow where the float path is fine
-    mags = [1.0, 1e8] if dtype == "int64" else [1.0]
+    mags = [1.0, 1e8, 1e9] if dtype == "int64" else [1.0]
     for mag in mags:
-        fails += _replay_one(case, values(p, halves) * mag, "" if mag == 1.0 else "x1e8")
+        fails += _replay_one(case, values(p, halves) * mag, "" if mag == 1.0 else f"x{mag:g}")
     return fails
 
 
@@ -210,7 +210,8 @@ def replay_scorers(args):
     fails = []
     n_eval = 0
     for name, mk, cuts, mag in [(n_, m_, c_, 1.0) for n_, m_, c_ in scorer_cases()] + \
-            ([(n_ + " x1e8", m_, c_, 1e8) for n_, m_, c_ in scorer_cases() if "(0" not in n_ and "(1" not in n_] if dtype == "int64" else []):
+            ([(n_ + f" x{mg:g}", m_, c_, mg) for mg in (1e8, 1e9) for n_, m_, c_ in scorer_cases() if "(0" not in n_ and "(1" not in n_]
+             if dtype == "int64" else []):
         V = values(p, halves)[:N_ROWS] * mag
         n_eval += 1
         try:
